@@ -386,7 +386,7 @@ def check(ctx):
     run(fixed)
     # 2. random programs
     rng = ctx.rng("random")
-    n = 260 if quick else 5000
+    n = 700 if quick else 12000
     batch = []
     t_gen = time.time()
     for i in range(n):
@@ -406,7 +406,7 @@ def check(ctx):
     # 3. error-free programs (no deliberate errors: the static clauses on larger control flow)
     rng2 = ctx.rng("clean")
     batch = []
-    for i in range(60 if quick else 1200):
+    for i in range(120 if quick else 2500):
         g = bcgen.Gen(rng2, size=rng2.choice([8, 12, 20]), max_depth=6, errors=0.0)
         batch.append(Case("clean:%d" % i, nodes=g.program(), opts="nargs=%d" % (i % 4)))
     for j in range(0, len(batch), 100):
